@@ -132,13 +132,18 @@ func (s *Session) Run(cc *client.Conn) (err error) {
 		}
 		s.shutdown()
 	}()
-	m := make([]byte, s.mtu)
+	// one byte more than the largest datagram that is accepted: a read that fills the buffer has met a longer
+	// datagram, whose tail the socket has thrown away. Parsing the head would present a cut-off body as complete.
+	m := make([]byte, int(s.mtu)+1)
 	for {
 		buf := m
 		var cm *coapNet.ControlMessage
 		n, err := s.connection.ReadWithOptions(buf, coapNet.WithContext(s.Context()), coapNet.WithGetControlMessage(&cm))
 		if err != nil {
 			return err
+		}
+		if n > int(s.mtu) {
+			continue // longer than anything this connection can receive: ignored
 		}
 		buf = buf[:n]
 		err = cc.Process(cm, buf)
